@@ -30,7 +30,9 @@ Inductive case :=
      after each step (a later evaluation starts from what the earlier ones left) *)
   | CCapSeq (steps : list cap_step) (obs : list (bool * list bytes))
   (* several rules in one WAF, each on its own header: matched flags and the final TX.0-9 *)
-  | CRuleSeq (rules : list rule_in) (res : option (list bool * list bytes)).
+  | CRuleSeq (rules : list rule_in) (res : option (list bool * list bytes))
+  (* @ipMatch (file = false) / @ipMatchFromFile (file = true, arg = file content), IPv4 forms *)
+  | CIpm (file : bool) (arg value : bytes) (res : bool).
 
 Definition opt_bytes_eqb (a b : option bytes) : bool :=
   match a, b with
@@ -95,6 +97,7 @@ Definition ok (c : case) : bool :=
   | CCapSeq steps obs =>
     list_eqb (fun a b => Bool.eqb (fst a) (fst b) && list_eqb bytes_eqb (snd a) (snd b))
              (map (fun p => (fst p, caps_of (snd p))) (capture_seq tx_init steps)) obs
+  | CIpm file arg v res => Bool.eqb (ipm_eval (ipm_new (if file then ipmf_arg arg else arg)) v) res
   | CRuleSeq rules res =>
     match rules_eval tx_init rules, res with
     | None, None => true
